@@ -277,31 +277,29 @@ def rule_sizes(chk: Check, model, rid: str):
     # ... both taken cumulatively over the generations of a run: the newest output written *up to* a generation (prefix maximum) against
     # the oldest entry any window *from that generation on* still names (suffix minimum). Per-generation values alone only cover the
     # consumers scheduled in the very generation of the write
-    def _path(t):
-        """Wrappers from `t` down to the .seq.max/.seq.min reduction: list of 'acc:<ufunc>' / 'rev' tags, or None when something unknown is passed."""
-        tags = []
-        for _ in range(40):
-            if t[0] == "index":
-                if any(x[0] == "sl" and x[3] is not None and T.const_value(x[3]) == -1 for x in T.walk(t[2])):
-                    tags.append("rev")
-                t = t[1]
-            elif t[0] == "call":
-                nm = T.call_name(t)
-                if nm.endswith(".seq.max") or nm.endswith(".seq.min"):
-                    return tags
-                if nm.endswith(".accumulate") and t[2]:
-                    tags.append("acc:" + nm.split(".")[-2])
-                    t = t[2][0]
-                elif nm.split(".")[-1] in ("reshape", "filled") and not isinstance(t[1], str) and t[1][0] == "attr":
-                    t = t[1][1]
-                elif nm.split(".")[-1] in ("roll",) and t[2]:
-                    t = t[2][0]
-                else:
-                    return None
-            else:
-                return None
-        return None
+    def _paths(t, tags, out):
+        """Tag lists ('acc:<ufunc>' / 'rev') met on the way from `t` down to every .seq.max/.seq.min reduction whose *values* are used."""
+        if not isinstance(t, tuple) or not t:
+            return
+        if t[0] == "attr" and t[2] in ("shape", "dtype", "ndim"):
+            return
+        if t[0] == "call" and isinstance(t[1], (str, tuple)):
+            nm = T.call_name(t)
+            if nm.endswith(".seq.max") or nm.endswith(".seq.min"):
+                out.append(list(tags))
+                return
+            if nm.endswith(".accumulate"):
+                tags = tags + ["acc:" + nm.split(".")[-2]]
+            elif nm.split(".")[-1] in ("flip", "fliplr"):
+                tags = tags + ["rev"]
+        if t[0] == "index" and any(isinstance(x, tuple) and x and x[0] == "sl" and x[3] is not None and T.const_value(x[3]) == -1 for x in T.walk(t[2])):
+            _paths(t[1], tags + ["rev"], out)
+            return
+        for x in t:
+            if isinstance(x, tuple):
+                _paths(x, tags, out)
     okc = None
+    pp = pn = None
     if oks and ok and len(apps) == 1:
         d = T.sub(a, T.ONE)
         rv = d[1][1] if d[0] == "call" and not isinstance(d[1], str) and d[1][0] == "attr" else None
@@ -309,9 +307,14 @@ def rule_sizes(chk: Check, model, rid: str):
             pos = [mono[0][0] for mono, c in rv[1] if c == 1]
             neg = [mono[0][0] for mono, c in rv[1] if c == -1]
             if len(pos) == 1 and len(neg) == 1:
-                pp, pn = _path(pos[0]), _path(neg[0])
-                if pp is not None and pn is not None and mentions(pos[0], ".seq.max") is not None and mentions(neg[0], ".seq.min") is not None:
-                    okc = pp == ["acc:maximum"] and pn == ["rev", "acc:minimum", "rev"]
+                pp, pn = [], []
+                _paths(pos[0], [], pp)
+                _paths(neg[0], [], pn)
+                if pp and pn:
+                    if all(x == ["acc:maximum"] for x in pp) and all(x == ["rev", "acc:minimum", "rev"] for x in pn):
+                        okc = True
+                    elif any(not [g for g in x if g.startswith("acc:")] for x in pp + pn):
+                        okc = False  # a reduction reaches the difference without any running maximum / minimum
     if okc is None:
         chk.unknown(rid, "ring spread is cumulative over the generations", "the requirement s.max() + 1 is not the difference of two recognisable chains over .seq.max / .seq.min", chk.loc(f_bs))
     else:
